@@ -724,8 +724,8 @@ class Gridder(GeospatialGrid):
         slopes, intercepts = calculate_line_parameters(lats, lons)
 
         # Get the indices of the grid cells where trajectory points are located
-        lat_grid_indices = np.searchsorted(self.grid_latitudes, lats) - 1
-        lon_grid_indices = np.searchsorted(self.grid_longitudes, lons) - 1
+        lat_grid_indices = _cell_indices(self.grid_latitudes, lats)
+        lon_grid_indices = _cell_indices(self.grid_longitudes, lons)
 
         # Get index range for each trajectory segment
         lat_index_ranges = np.column_stack(
@@ -909,11 +909,11 @@ class Gridder(GeospatialGrid):
         ) / 2
 
         # lat and lon indices of the gridcells where midpoints are located
-        midpoint_lat_indices = np.searchsorted(self.grid_latitudes, midpoints_lats) - 1
+        midpoint_lat_indices = _cell_indices(self.grid_latitudes, midpoints_lats)
         midpoint_lat_indices = np.where(
             np.isnan(midpoints_lats), np.nan, midpoint_lat_indices
         )
-        midpoint_lon_indices = np.searchsorted(self.grid_longitudes, midpoints_lons) - 1
+        midpoint_lon_indices = _cell_indices(self.grid_longitudes, midpoints_lons)
         midpoint_lon_indices = np.where(
             np.isnan(midpoints_lons), np.nan, midpoint_lon_indices
         )
@@ -943,22 +943,22 @@ class Gridder(GeospatialGrid):
     def _trajectory_time_grid_indices(self, times: NDArray) -> NDArray:
         if self.grid_times is None:
             raise ValueError("No time grid")
-        return (np.searchsorted(self.grid_times, times) - 1).astype(int)
+        return _cell_indices(self.grid_times, times).astype(int)
 
     def _trajectory_altitude_grid_indices(self, altitudes: NDArray) -> NDArray:
         if self.grid_altitudes is None:
             raise ValueError("No altitude grid")
-        return (np.searchsorted(self.grid_altitudes, altitudes) - 1).astype(int)
+        return _cell_indices(self.grid_altitudes, altitudes).astype(int)
 
     def _trajectory_segment_time_grid_indices(self, times: NDArray) -> NDArray:
         if self.grid_times is None:
             raise ValueError("No time grid")
-        return (np.searchsorted(self.grid_times, times) - 1)[:-1]
+        return _cell_indices(self.grid_times, times)[:-1]
 
     def _trajectory_segment_altitude_grid_indices(self, altitudes: NDArray) -> NDArray:
         if self.grid_altitudes is None:
             raise ValueError("No altitude grid")
-        return (np.searchsorted(self.grid_altitudes, altitudes) - 1)[:-1]
+        return _cell_indices(self.grid_altitudes, altitudes)[:-1]
 
     def _cell_idxs_touched_by_trajectory_with_state_and_integrated_vars(
         self,
@@ -1446,6 +1446,16 @@ def great_circle_distance(
 
     """
     return GEOD.inv(lon1, lat1, lon2, lat2, radians=True)[2]
+
+
+def _cell_indices(edges: NDArray, values: NDArray) -> NDArray:
+    """Index of the grid cell containing each value.
+
+    Cell ``i`` spans ``edges[i]`` to ``edges[i + 1]``; a value on an interior
+    edge belongs to the cell below it. A value exactly on the lowest edge
+    belongs to the first cell (``searchsorted(...) - 1`` alone would give -1,
+    which indexes the *last* cell)."""
+    return np.maximum(np.searchsorted(edges, values) - 1, 0)
 
 
 def calculate_line_parameters(x: NDArray, y: NDArray) -> tuple[NDArray, NDArray]:
